@@ -159,18 +159,32 @@ def cases_reject(tier):
 
 def strat_beyond(tier):
     idx = st.one_of(st.none(), st.integers(-40, 40))
-    return st.fixed_dictionaries({
+    small = st.fixed_dictionaries({
         "start": idx, "stop": idx,
         "step": st.one_of(st.none(), st.integers(1, 9)),
         "n": st.integers(0, 60), "form": st.just(3)})
+    big = st.one_of(st.none(), st.integers(-400, 400), st.integers(250, 262), st.integers(-262, -250))
+    large = st.fixed_dictionaries({
+        "start": big, "stop": big,
+        "step": st.one_of(st.none(), st.integers(1, 9), st.integers(50, 130)),
+        "n": st.integers(240, 420), "form": st.just(3)})
+    return st.one_of(small, small, large)
 
 
 def strat_fill_beyond(tier):
     idx = st.one_of(st.none(), st.integers(0, 40))
-    return st.fixed_dictionaries({
+    small = st.fixed_dictionaries({
         "start": idx, "stop": idx,
         "step": st.one_of(st.none(), st.integers(1, 9)),
         "n": st.integers(0, 60), "form": st.just(3), "horizon": st.just(60)})
+    # large indices (beyond the small integers an interpreter may treat specially)
+    big = st.one_of(st.none(), st.integers(200, 400), st.integers(250, 262), st.integers(1000, 1100))
+    large = st.fixed_dictionaries({
+        "start": big, "stop": big,
+        "step": st.one_of(st.none(), st.integers(1, 9), st.integers(50, 130)),
+        "n": st.one_of(st.integers(240, 420), st.integers(1000, 1200)), "form": st.just(3),
+        "horizon": st.just(60)})
+    return st.one_of(small, small, large)
 
 
 _NT = dict((k, collections.namedtuple("NT%d" % k, ["f%d" % i for i in range(k)]))
@@ -276,7 +290,7 @@ CHECKS = [
           rule="RunningChunkBy sizes 1..5 x len 0..10 x container kinds x list/iterator input; non-trivial = more than one window."),
     Check("slice_run_beyond", judge_run, strategy=strat_beyond, quick=1500,
           thorough=100000,
-          rule="Hypothesis outside the box: |index|<=40, len<=60, step<=9."),
+          rule="Hypothesis outside the box: |index|<=40, len<=60, step<=9, and large cases |index|<=400 (around 256), len 240-420, steps up to 130."),
     Check("slice_fill_beyond", judge_fill, strategy=strat_fill_beyond, quick=800,
           thorough=50000,
           rule="Hypothesis outside the box for fill_into: index<=40, len<=60, step<=9."),
